@@ -20,6 +20,15 @@ var VerifDir = func() string {
 	return "/verif"
 }()
 
+// OutDir is where evidence/ and replays/ are written (VERIF_OUT overrides; the
+// registered commands never set it, the author's mutant tooling does).
+var OutDir = func() string {
+	if d := os.Getenv("VERIF_OUT"); d != "" {
+		return d
+	}
+	return VerifDir
+}()
+
 type KnownFinding struct {
 	Property string `json:"property"`
 	Sig      string `json:"sig"`  // call site + attribution signature computed by the check
@@ -151,8 +160,8 @@ func (r *Report) Finish() int {
 			fmt.Printf("note: listed finding %s/%s not reached in this run (tier %s)\n", r.ID, k.Sig, r.Tier)
 		}
 	}
-	os.MkdirAll(filepath.Join(VerifDir, "replays"), 0755)
-	if old, _ := filepath.Glob(filepath.Join(VerifDir, "replays", r.ID+"-*.json")); len(old) > 0 {
+	os.MkdirAll(filepath.Join(OutDir, "replays"), 0755)
+	if old, _ := filepath.Glob(filepath.Join(OutDir, "replays", r.ID+"-*.json")); len(old) > 0 {
 		for _, f := range old {
 			os.Remove(f)
 		}
@@ -161,7 +170,7 @@ func (r *Report) Finish() int {
 		v := &r.viols[i]
 		b, _ := json.MarshalIndent(map[string]any{"property": r.ID, "sig": v.Sig, "desc": v.Desc, "sys": v.Sys, "arg": v.Arg}, "", " ")
 		h := sha256.Sum256(b)
-		v.Replay = filepath.Join(VerifDir, "replays", fmt.Sprintf("%s-%s.json", r.ID, hex.EncodeToString(h[:6])))
+		v.Replay = filepath.Join(OutDir, "replays", fmt.Sprintf("%s-%s.json", r.ID, hex.EncodeToString(h[:6])))
 		os.WriteFile(v.Replay, b, 0644)
 		fmt.Printf("VIOLATION property=%s replay=%s\n", r.ID, v.Replay)
 		fmt.Printf("  sig=%s %s\n", v.Sig, oneLine(v.Desc, 600))
@@ -195,8 +204,8 @@ func (r *Report) Finish() int {
 		"coverage": cov, "assumptions": r.Assumptions, "wall_s": wall, "violations": nviol,
 	}
 	b, _ := json.MarshalIndent(ev, "", " ")
-	os.MkdirAll(filepath.Join(VerifDir, "evidence"), 0755)
-	if err := os.WriteFile(filepath.Join(VerifDir, "evidence", r.ID+".json"), b, 0644); err != nil {
+	os.MkdirAll(filepath.Join(OutDir, "evidence"), 0755)
+	if err := os.WriteFile(filepath.Join(OutDir, "evidence", r.ID+".json"), b, 0644); err != nil {
 		Fatalf("write evidence: %v", err)
 	}
 	keys := make([]string, 0, len(r.outcomes))
